@@ -487,7 +487,7 @@ func TestZZVShellTrace(t *testing.T) {
 				rec.log(map[string]any{"ev": "ObsCall", "w": "w1"})
 				n := ex.ActiveSessions()
 				rec.log(map[string]any{"ev": "ObsRet", "w": "w1", "n": n})
-				time.Sleep(2 * time.Millisecond)
+				time.Sleep(10 * time.Millisecond)
 			}
 		}()
 		for w := 0; w < workers; w++ {
